@@ -46,6 +46,7 @@ type c13Case struct {
 	After   [][2]string `json:"after,omitempty"`   // body fields with larger tags
 	Mode    int         `json:"mode"`              // 0 no dictionary, 1 defining dictionary, 2 transport + defining dictionary
 	Rewrite bool        `json:"rewrite,omitempty"` // every group is set twice (first with one entry less), as an application building it up would
+	Wrapped bool        `json:"wrapped,omitempty"` // the reading template declares its nested groups through wrapper types (struct{ *RepeatingGroup }), the shape generated code uses
 	Shared  bool        `json:"shared,omitempty"`  // one template object tree for writing and reading: the nested group objects inside the template are the ones the application fills (first entry of each level)
 }
 
@@ -106,6 +107,22 @@ func restyle(entries []gEntry, prefix string) []gEntry {
 			n.Subs[k] = restyle(v, prefix)
 		}
 		out = append(out, n)
+	}
+	return out
+}
+
+// wrapGroup: what generated code puts into templates for a nested group.
+type wrapGroup struct{ *quickfix.RepeatingGroup }
+
+// templateW: the template with its nested groups declared through wrapper types.
+func (t gTmpl) templateW() quickfix.GroupTemplate {
+	var out quickfix.GroupTemplate
+	for _, m := range t.Members {
+		if m.IsGroup {
+			out = append(out, wrapGroup{quickfix.NewRepeatingGroup(quickfix.Tag(m.Tag), m.templateW())})
+		} else {
+			out = append(out, quickfix.GroupElement(quickfix.Tag(m.Tag)))
+		}
 	}
 	return out
 }
@@ -269,6 +286,10 @@ func c13EvalInner(cs c13Case) (string, string) {
 	if cs.Shared {
 		rg = quickfix.NewRepeatingGroup(quickfix.Tag(cs.Group.Tag), sharedTpl)
 		ctx += " (one template object tree used for writing and reading)"
+	}
+	if cs.Wrapped {
+		rg = quickfix.NewRepeatingGroup(quickfix.Tag(cs.Group.Tag), cs.Group.templateW())
+		ctx += " (nested groups declared through wrapper types in the reading template)"
 	}
 	if err := parsed.Body.GetGroup(rg); err != nil {
 		return "C13/R-group-unreadable", fmt.Sprintf("%v | %s", err, ctx)
@@ -475,6 +496,7 @@ func runC13(c *core.Ctx) {
 								jobs <- c13Case{Dict: dn, MsgType: m.MsgType, Begin: begin[dn], Group: t, Entries: fill(t, n, nn, opt, ""), Before: before, After: after, Mode: mode, Rewrite: n == 2 && opt}
 								if nn == 1 {
 									jobs <- c13Case{Dict: dn, MsgType: m.MsgType, Begin: begin[dn], Group: t, Entries: fill(t, n, nn, opt, ""), Before: before, After: after, Mode: mode, Shared: true}
+									jobs <- c13Case{Dict: dn, MsgType: m.MsgType, Begin: begin[dn], Group: t, Entries: fill(t, n, nn, opt, ""), Before: before, After: after, Mode: mode, Wrapped: true}
 								}
 								if n == 1 && nn == 1 && opt {
 									for _, pre := range []string{"=", "x="} {
